@@ -5,7 +5,17 @@ import json
 import os
 
 V = os.path.dirname(os.path.dirname(os.path.abspath(__file__)))
+import importlib
+import sys
+sys.path.insert(0, os.path.join(V, "tools"))
 src = json.load(open(os.path.join(V, "tools", "manifest_src.json")))
+for f in sorted(os.listdir(os.path.join(V, "tools", "checks"))):
+    if f.startswith("c") and f.endswith(".py"):
+        cfg = importlib.import_module("checks." + f[:-3])
+        if getattr(cfg, "CLAIM", False):
+            src["claimed"][cfg.PID] = {"text": cfg.MANIFEST_TEXT, "note": cfg.MANIFEST_NOTE, "technique": cfg.TECHNIQUE}
+        elif hasattr(cfg, "NOT_CLAIMED_REASON"):
+            src["not_claimed"][cfg.PID] = cfg.NOT_CLAIMED_REASON
 props = [json.loads(l)["id"] for l in open(os.path.join(V, "properties.jsonl"))]
 checks = []
 na = []
